@@ -66,6 +66,7 @@ struct World {
     promise<int> proms[NK];
     bool completed[NK] = {};
     bool noted[NK] = {};      // the body is about to co_await future k
+    bool uses_future[NK] = {};
     bool consumer_done = false;
     World() {
         for (int k = 0; k < NK; ++k) {
@@ -84,7 +85,7 @@ struct World {
         completed[k] = true;
         events[k].set = true;
         if (auto h = std::exchange(events[k].waiter, nullptr)) h.resume();
-        proms[k](k);
+        if (uses_future[k]) proms[k](k);   // (an operation nobody awaits as a future is not resolved: fewer irrelevant scheduling points)
     }
 };
 World *W = nullptr;
@@ -279,6 +280,7 @@ struct Scn {
     void run(const std::vector<std::vector<std::string>> &cops, const std::vector<int> &ks, const std::vector<int> &sched) {
         if constexpr (has_arg) gen.emplace(body_a());
         else gen.emplace(body_v());
+        S().name_obj(&gen->_promise->_block, "block");
         S().spawn([this, &cops] { consumer(cops); });
         S().spawn([&ks] { completer(ks); });
         bool ok = S().run(sched);
@@ -303,7 +305,11 @@ struct Scn {
             multi += d > 1;
         }
         out("end made=" + std::to_string(g_dtor.size()) + " once=" + std::to_string(once) + " multi=" + std::to_string(multi));
-        for (int k = 0; k < NK; ++k) W->complete(k);
+        for (int k = 0; k < NK; ++k) {
+            W->uses_future[k] = true;
+            W->completed[k] = false;
+            W->complete(k);
+        }
     }
 };
 
@@ -317,6 +323,7 @@ void run_case(const std::vector<std::string> &hdr, const std::vector<std::vector
             for (std::size_t i = 1; i < w.size(); ++i) {
                 Act a{w[i][0], w[i].size() > 1 ? atoi(w[i].c_str() + 1) : 0};
                 if ((a.kind == 'p' || a.kind == 'f') && (a.v < 0 || a.v >= NK)) a.v = 0;
+                if (a.kind == 'f') world.uses_future[a.v] = true;
                 world.script.push_back(a);
             }
         } else if (w[0] == "c" && w.size() > 1) cops.push_back(w);
